@@ -6,11 +6,11 @@ def main():
     chk = C.Check('C18')
     quick = chk.tier == 'quick'
     lvl = '1' if quick else '2'
-    chk.bounds.append('E2: one coarse triangle (thorough: + tetrahedron) from the affine family x = [[hx, sk],[0, hy]] xhat with 1..%s free parameters, refined once by the real StandardRefinery; Lagrange1, Discontinuous P0 (1..%s parameters), Discontinuous P1 (1 parameter); Lagrange2 in the thorough tier' % (('2', '2') if quick else ('3', '3')))
+    chk.bounds.append('E2: one coarse triangle (thorough: + tetrahedron) from the affine family x = [[hx, sk],[0, hy]] xhat with 1..%s free parameters, refined once by the real StandardRefinery; Lagrange1, Discontinuous P0 (1..%s parameters), Discontinuous P1 (1 parameter); Lagrange2 in the thorough tier; Lagrange1 / Discontinuous P0 additionally with the fine, the coarse or both meshes renumbered by a custom mesh permutation (cyclic shifts in every dimension)' % (('2', '2') if quick else ('3', '3')))
     chk.functions += ['Geometry::StandardRefinery (vertex/index refiners on a SymReal mesh)', 'Assembly::SymbolicAssembler::assemble_matrix_2lvl', 'Assembly::GridTransfer::{assemble_prolongation(_direct), assemble_truncation(_direct), prolongate_vector(_direct)}', 'Math::invert_matrix on symbolic local mass matrices (pivoting recorded as path conditions)',
                       'LAFEM::Transfer::{prol,rest,trunc}', 'LAFEM::SparseMatrixCSR::{transpose,scale_rows}', 'Geometry::Intern::CoarseFineCellMapping']
     chk.assume(*e2prop.E2_ASSUME)
-    chk.assume('identities seen through a pivoted symbolic matrix inversion are only decidable for few geometry parameters: quadrilaterals/hexahedra, fully symbolic vertices, permuted meshes and multi-level/global transfer objects are outside (DESIGN section C18)')
+    chk.assume('identities seen through a pivoted symbolic matrix inversion are only decidable for few geometry parameters: quadrilaterals/hexahedra, fully symbolic vertices and multi-level/global transfer objects are outside (DESIGN section C18)')
     e2prop.run_e2(chk, e2prop.e2_harness_path('c18_e2.cpp'), 'c18_e2', timeout=40 if quick else 600, harness_args=['--bounds', lvl], max_group=1)
     return chk.finish(
         explanation='Partial and restricted (stated): on one coarse simplex from a 1-3 parameter affine family, refined by the real refinery, the real GridTransfer assembly is executed symbolically; z3 decides that every prolongation row sums to 1, that for Lagrange1 every entry equals the value of the coarse basis function at the fine node (1, 1/2, 0), that the restriction matrix is the transpose, and that LAFEM::Transfer and the matrix-free prolongation agree with the assembled matrices for all vectors.',
